@@ -237,9 +237,15 @@ func checkC11(c *C11Case, st *VStats) *VFailure {
 					}
 				}
 				excluded := false
-				for _, ps := range vars[i].AllowedProtocols {
+				for proto, ps := range vars[i].AllowedProtocols {
 					if len(ps.ExcludedNamedPorts) > 0 {
 						excluded = true
+					}
+					// a port name is either held or excluded by a set, never both
+					for n := range ps.ExcludedNamedPorts {
+						if ps.NamedPorts[n] {
+							return vfail("%s: v%d both holds and excludes the named port %s/%s (prints %q)", step, i, proto, n, vars[i].String())
+						}
 					}
 				}
 				if models[i].full() && !excluded && (!vars[i].IsAllConnections() || vars[i].String() != "All Connections") {
@@ -343,6 +349,13 @@ func checkC11(c *C11Case, st *VStats) *VFailure {
 			}
 			step += fmt.Sprintf(" ports=%+v", op.PS)
 		case "union":
+			// union commutes: b ∪ a, computed on copies, equals a ∪ b (also for sets that hold or exclude port names)
+			ba, ab := vars[b].Copy(), vars[a].Copy()
+			ba.Union(vars[a])
+			ab.Union(vars[b])
+			if !ab.Equal(ba) || !ba.Equal(ab) || ab.String() != ba.String() {
+				return vfail("%s: union does not commute: a∪b=%q (%s) b∪a=%q (%s)", step, ab.String(), c11Snap(ab), ba.String(), c11Snap(ba))
+			}
 			vars[a].Union(vars[b])
 			for p := 0; p < 3; p++ {
 				for i := 0; i < c11Words; i++ {
